@@ -68,6 +68,17 @@ def fold_count(I: Interp, f: FuncInfo, e: ast.expr):
         a = e.args[0]
         if norm(a) == "self.fields" and f.cls is not None and f.cls.fq == SCHEMA:
             return len(meta_fields(I))
+        if isinstance(a, ast.Attribute) and a.attr == "_fields":
+            # the field tuple of a NamedTuple record: `len(cls._fields)` in one of its methods, `len(Rec._fields)`
+            c_ = None
+            if isinstance(a.value, ast.Name) and a.value.id in ("cls", "self") and f.cls is not None:
+                c_ = f.cls
+            else:
+                d_ = I.prog.resolve_expr(f.module, a.value) if isinstance(a.value, (ast.Name, ast.Attribute)) else None
+                c_ = d_.obj if d_ is not None and d_.kind == "class" else None
+            flds = I.record_fields(c_) if c_ is not None else None
+            if flds is not None:
+                return len(flds)
         try:
             return len(I.folder.fold(f.module, a))
         except (Unfoldable, TypeError):
@@ -77,6 +88,29 @@ def fold_count(I: Interp, f: FuncInfo, e: ast.expr):
         return v if isinstance(v, int) else "unknown"
     except Unfoldable:
         return "unknown"
+
+
+def decode_helpers(ctx, pre: FuncInfo, depth: int = 2) -> list[FuncInfo]:
+    """Functions of the codec module that the pre_load hook calls (directly or through one of them): a split moved
+    into a value object's constructor / a module helper is still the decoder's split."""
+    out: list[FuncInfo] = []
+    todo = [(pre, 0)]
+    while todo:
+        f, d = todo.pop()
+        if d >= depth:
+            continue
+        for n in ctx.own_nodes(f):
+            if isinstance(n, ast.Call) and isinstance(n.func, (ast.Name, ast.Attribute)):
+                df = ctx.prog.resolve_expr(ctx.prog.origin(f.module, n), n.func)
+                h = None
+                if df is not None and df.kind == "func":
+                    h = df.obj
+                elif isinstance(n.func, ast.Attribute) and isinstance(n.func.value, ast.Name) and n.func.value.id in ("self", "cls") and f.cls is not None:
+                    h = f.cls.find_method(n.func.attr)
+                if h is not None and h is not pre and h not in out and h.module is pre.module:
+                    out.append(h)
+                    todo.append((h, d + 1))
+    return out
 
 
 def split_sites(I: Interp, delimiter: str = ";") -> list[SplitSite]:
